@@ -514,6 +514,14 @@ pub(crate) fn solve_sampled_single(
         .iter()
         .map(|info| RefCell::new(SampledChance::new(info.probs())))
         .collect();
+    #[cfg(feature = "verif")]
+    let chance_infosets = {
+        let mut chance_infosets: Box<[RefCell<SampledChance>]> = chance_infosets;
+        for (ind, info) in chance_infosets.iter_mut().enumerate() {
+            info.get_mut().verif_id = ind;
+        }
+        chance_infosets
+    };
     solve_generic_single(
         start,
         chance_infosets,
@@ -543,6 +551,14 @@ pub(crate) fn solve_sampled_multi(
         .iter()
         .map(|info| Mutex::new(SampledChance::new(info.probs())))
         .collect();
+    #[cfg(feature = "verif")]
+    let chance_infosets = {
+        let mut chance_infosets: Box<[Mutex<SampledChance>]> = chance_infosets;
+        for (ind, info) in chance_infosets.iter_mut().enumerate() {
+            info.get_mut().unwrap().verif_id = ind;
+        }
+        chance_infosets
+    };
     solve_generic_multi(
         start,
         chance_infosets,
